@@ -102,8 +102,8 @@ func cmdRetention(f hx.Flags, r *hx.Result) {
 			name := rtName(fileName, e.Name)
 			p := filepath.Join(dir, name)
 			if e.Kind == "dir" {
+				// an empty directory: removable by a plain os.Remove, so only the scan's own check protects it
 				_ = os.Mkdir(p, 0o755)
-				_ = os.WriteFile(filepath.Join(p, "inner"), []byte("x"), 0o644)
 			} else {
 				_ = os.WriteFile(p, []byte("x\n"), 0o644)
 			}
